@@ -124,8 +124,9 @@ class PageXMLWord(PageXMLDoc):
 
     def _to_pagexml(self, page_xml: etree.Element):
         # make dummy line and region
-        line = PageXMLTextLine(coords=self.coords, words=[self], text=self.text)
-        tr = PageXMLTextRegion(coords=self.coords, lines=[line])
+        # (the dummies do not get this word as child, so that this word keeps its own parent)
+        line = PageXMLTextLine(coords=self.coords, text=self.text)
+        tr = PageXMLTextRegion(coords=self.coords)
         # add region to page and line to region
         tr_xml = add_pagexml_sub_element(page_xml, 'TextRegion', sub_id=tr.id, custom=tr.custom,
                                          coords=tr.coords)
@@ -248,8 +249,8 @@ class PageXMLTextLine(PageXMLDoc):
             word.add_to_pagexml(line_xml)
 
     def _to_pagexml(self, page_xml: etree.Element):
-        # make dummy region
-        tr = PageXMLTextRegion(coords=self.coords, lines=[self])
+        # make dummy region (without this line as child, so that this line keeps its own parent)
+        tr = PageXMLTextRegion(coords=self.coords)
         # add region to page
         tr_xml = add_pagexml_sub_element(page_xml, 'TextRegion', sub_id=tr.id, custom=tr.custom,
                                          coords=tr.coords)
